@@ -65,10 +65,6 @@ func genAllocConc(c *ctx) {
 			base := c.pat128()
 			k := uint(128 - cfg.poolLen)
 			base.Rsh(base, k).Lsh(base, k)
-			if ip := bigToIP(base); ip.To4() != nil {
-				base.SetBit(base, 127, 1)
-				base.Rsh(base, k).Lsh(base, k)
-			}
 			if s.exec(c, fmt.Sprintf("new6 %s %d %d", hx(bigToIP(base)), cfg.poolLen, cfg.page)) != "ok" {
 				continue
 			}
